@@ -1,0 +1,75 @@
+//go:build verif
+// +build verif
+
+// Contracts for package service/hls, read by /verif's govc (contract-based deductive verification).
+// This file contains comments only; it is compiled only under the build tag "verif" and adds no code.
+
+package hls
+
+//@ import "io"
+//@ import "net/http"
+//@ import "strconv"
+//@ import "strings"
+//@ import "time"
+//@ import "github.com/cnotch/xlog"
+//@ import "github.com/cnotch/ipchub/config"
+//@ import "github.com/cnotch/ipchub/media"
+
+// ---- C11 / C10: which stream an HLS request reads ------------------------------------------------------------------
+// what strings.LastIndex(s, "/") returns (the same function the permission check of package service is stated with)
+//@ spec func lastSlashIdx(s string) int = uninterpreted
+//@ extern func strings.LastIndex(s string, substr string) (i int)
+//@   modifies
+//@   ensures -1 <= i && i <= len(s) - len(substr)
+//@   ensures substr == "/" ==> i == lastSlashIdx(s)
+//@ extern func xlog.F(key string, value interface{}) (f xlog.Field)
+//@   modifies
+//@ extern func xlog.Fields(fields ...xlog.Field) (o xlog.Option)
+//@   modifies
+//@ extern func (l *xlog.Logger) With(opts ...xlog.Option) (r *xlog.Logger)
+//@   modifies
+//@   ensures r != nil
+//@ extern func (l *xlog.Logger) Info(msg string, fields ...xlog.Field) ()
+//@   modifies
+//@ extern func (l *xlog.Logger) Errorf(format string, args ...interface{}) ()
+//@   modifies
+//@ extern func (l *xlog.Logger) Debugf(format string, args ...interface{}) ()
+//@   modifies
+//@ extern func (l *xlog.Logger) LevelEnabled(lvl xlog.Level) (b bool)
+//@   modifies
+//@ extern func http.Error(w http.ResponseWriter, error string, code int) ()
+//@   modifies misc(w)
+//@ extern func strconv.Atoi(s string) (n int, err error)
+//@   modifies
+//@ extern func strconv.Itoa(n int) (s string)
+//@   modifies
+//@ extern func media.GetOrCreate(path string) (st *media.Stream)
+//@   modifies ghostAll("misc")
+//@ extern func (s *media.Stream) Hlsable() (h media.Hlsable)
+//@   modifies
+//@ extern func (h media.Hlsable) Segment(seq int) (r io.Reader, n int, err error)
+//@   modifies ghostAll("misc")
+//@ extern func (h media.Hlsable) M3u8(token string) (b []byte, err error)
+//@   modifies ghostAll("misc")
+//@ extern func (w http.ResponseWriter) Header() (h http.Header)
+//@   modifies
+//@ extern func (h http.Header) Set(key string, value string) ()
+//@   modifies misc(h)
+//@ extern func (w http.ResponseWriter) Write(b []byte) (n int, err error)
+//@   modifies misc(w)
+//@ extern func io.Copy(dst io.Writer, src io.Reader) (n int64, err error)
+//@   modifies ghostAll("misc")
+//@ extern func (c io.Closer) Close() (err error)
+//@   modifies ghostAll("misc")
+//@ extern func config.HlsFragment() (n int)
+//@   modifies
+//@ extern func time.After(d time.Duration) (c <-chan time.Time)
+//@   modifies
+
+// a segment request <stream>/<seq> reads segment seq of the stream named by everything before the last '/' - the path
+// the permission check of package service is made against - and of no other stream
+//@ func GetTS(logger *xlog.Logger, path string, addr string, w http.ResponseWriter) ()
+//@   requires logger != nil && w != nil
+//@   modifies ghostAll("misc")
+//@   local streamPath string
+//@   assert[call:GetOrCreate] lastSlashIdx(path) >= 0 && streamPath == path[:lastSlashIdx(path)]
